@@ -9,8 +9,8 @@ space, labels and condition variable as the memory queue (`Model/C02.lean`).  Wh
   it returns `ErrQueueIsFull` when not blocking, `errSizeTooLarge` when blocking and `reqSize > capacity` (the repair),
   otherwise waits on the cond; no `wait_for_result`.
 * `Read` checks `stopped` first; after `getNextItem`, when `readIndex == writeIndex` it does `queueSize = 0` and
-  `hasMoreSpace.Signal()` — the size is reset although requests are still in flight.
-* `onDone` does `queueSize -= elSize`, clamps at 0, `Signal()`.
+  `hasMoreSpace.Broadcast()` — the size is reset although requests are still in flight.
+* `onDone` does `queueSize -= elSize`, clamps at 0, `Broadcast()`.
 
 Storage is outside this model (C01 owns it): the client never fails, items are identified by the id of the Offer,
 the queue starts empty.  Environment assumptions (labels not enabled): sizes are ≥ 0 (every real sizer), no `Offer`
@@ -36,11 +36,11 @@ def ptryAdd (k : Cfg) (s : St) (p : Nat) (el : Int) : St :=
 def ppop (s : St) : Option St :=
   match pop s with
   | none => none
-  | some s1 => some (if s1.items.isEmpty then condSignal { s1 with size := 0 } else s1)
+  | some s1 => some (if s1.items.isEmpty then condBroadcast { s1 with size := 0 } else s1)
 
-/-- `onDone`: `queueSize -= elSize; if queueSize < 0 { queueSize = 0 }; hasMoreSpace.Signal()` -/
+/-- `onDone`: `queueSize -= elSize; if queueSize < 0 { queueSize = 0 }; hasMoreSpace.Broadcast()` -/
 def pfinish (s : St) (id : Nat) (el : Int) (e : Nat) : St :=
-  condSignal { s with size := if s.size - el < 0 then 0 else s.size - el,
+  condBroadcast { s with size := if s.size - el < 0 then 0 else s.size - el,
                       inflight := s.inflight.filter (fun x => x.1 != id),
                       finished := s.finished ++ [id], outcomes := s.outcomes ++ [(id, e)] }
 
